@@ -61,10 +61,55 @@ def catalogue(tier: str):
     return specs
 
 
+class RetryProfile(Profile):
+    """Adds the 'accepted by the job runner, then gone without running'
+    outcome: the submit command succeeds, the job silently leaves the runner
+    (no message), and only a poll reveals the submission failure."""
+
+    POLLS = 2
+
+    def make_world(self):
+        w = super().make_world()
+        w.n_polls = 0
+        return w
+
+    def extra_key(self, w):
+        return w.n_polls
+
+    def job_steps(self, w, job):
+        steps = super().job_steps(w, job)
+        if job.state == 'submitted' and job.key[1] in self.submit_fail:
+            steps = steps + ['vanish']
+        return steps
+
+    def enabled(self, w):
+        evs = super().enabled(w)
+        if w.running and w.n_polls < self.POLLS and any(
+                j.state == 'submit-failed' and 'vanished' in j.emitted
+                for j in w.env.jobs.values()):
+            evs.append(('poll',))
+        return evs
+
+    def apply(self, w, ev):
+        if ev[0] == 'job' and ev[2] == 'vanish':
+            job = w.env.jobs[tuple(ev[1])]
+            job.state = 'submit-failed'
+            job.emitted.append('vanished')   # marker (never a real output)
+            w.emit('job_step', job=job.key, what='vanish')
+            w.resume()
+            return
+        if ev[0] == 'poll':
+            w.n_polls += 1
+            w.command('poll_tasks', tasks=['*/*'])
+            w.resume()
+            return
+        return super().apply(w, ev)
+
+
 def make_factory(spec):
     def factory():
         outcomes = {t: ['succeeded', 'failed'] for t in spec['fail_tasks']}
-        return Profile(
+        return RetryProfile(
             spec,
             monitors=[SubmitOnce, lambda: Lifecycle(allow_retry=True),
                       CycleBounds, PoolInvariants],
